@@ -61,6 +61,21 @@ class Checker:
         self.db = canboat.db()
         self.dec = NMEA2000Decoder()
         self.consts = canboat.lib_consts()
+        # the decoder is not fresh: it has received a message of every fast-packet definition frame by frame (from the source the
+        # checked payloads come from) and one through the Actisense entry point before the first payload is checked
+        from .. import wire
+        for d in self.db.defs:
+            if not (d.supported and d.fast):
+                continue
+            bp, bn, _ = gen.benign_payload(d)
+            if bn > 223:
+                continue
+            try:
+                for fr in wire.segment(bp.to_bytes(bn, "little"), d.index % 8):
+                    self.dec.decode_tcp(wire.ebyte(wire.ident(d.pgn, 1, 255, 3), fr))
+                self.dec.decode_actisense_string(wire.actisense(d.pgn, 1, 255, 3, bp.to_bytes(bn, "little")))
+            except Exception:
+                pass
 
     def decode(self, d, payload, nbytes, via):
         if via == "basic":
